@@ -582,6 +582,57 @@ func c12Readers(args []string) int {
 		return &owner{name: kind, sr: sr}
 	}
 	hungOnce := false
+	// directed: a record is released, another owner at once acquires nodes (the ones just released, as the allocator works)
+	// and attaches them - children first, so that the very node the reader let go becomes somebody's child - and the
+	// reader is asked for its next record: the other owner's tree is as it was built
+	for _, kind := range []string{"json", "xml"} {
+		o := mk(kind)
+		if o == nil {
+			continue
+		}
+		var trees []*idr.Node
+		for k := 0; k < 6 && !hungOnce; k++ {
+			pv, hung := guarded(5*time.Second, func() {
+				n, err := o.sr.Read()
+				if err != nil {
+					return
+				}
+				o.sr.Release(n)
+				kids := []*idr.Node{idr.CreateNode(idr.TextNode, "t1"), idr.CreateNode(idr.ElementNode, "e"), idr.CreateNode(idr.TextNode, "t2")}
+				root := idr.CreateNode(idr.ElementNode, "other")
+				for _, c := range kids {
+					idr.AddChild(root, c)
+				}
+				trees = append(trees, root)
+			})
+			if hung {
+				violation("C12", "hang-interleaved", "a Read / Release call did not return within 5 s (node links form a cycle?)", M{"kind": kind, "directed": true})
+				hungOnce = true
+				break
+			}
+			if pv != "" {
+				violation("C12", "panic-interleaved", "directed interleaving: "+pv, M{"kind": kind})
+				break
+			}
+			for ti, tnode := range trees {
+				ev, ok := dumpTree(tnode, pt, 50)
+				if !ok {
+					continue
+				}
+				ev["tr"] = len(events) + 1
+				ev["sample"] = fmt.Sprintf("another owner's tree no. %d (built right after the %s reader released record %d) after the reader's later calls", ti+1, kind, ti+1)
+				if ev["n"].(int) != 4 { // the tree was built with four nodes
+					ev["live"] = []int{}
+				}
+				events = append(events, ev)
+				sum.Traces++
+				sum.eval(true, M{"directed": kind, "k": k, "t": ti})
+			}
+		}
+		for _, tnode := range trees {
+			idr.RemoveAndReleaseTree(tnode)
+		}
+	}
 	for round := 0; round < 40*nmut; round++ {
 		kinds := [][]string{{"json", "json"}, {"json", "xml"}, {"xml", "xml"}, {"xml", "json"}}[round%4]
 		owners := []*owner{mk(kinds[0]), mk(kinds[1])}
